@@ -212,12 +212,18 @@ def gen_rule(rng, g, var_ids, depth, kinds, counter, bound_ctx=False):
     """`bound_ctx`: the node is only reached under a branch whose (closed) condition held, so every variable is bound
     there and its own condition may mention any non-empty subset of the variables; the root and the alternatives on
     the root's alternative chain are reached with unbound variables and stay closed."""
-    if bound_ctx and len(var_ids) > 1 and rng.random() < 0.6:
-        sub = rng.sample(var_ids, rng.randint(1, len(var_ids) - 1))
-        cond = closed_cond(rng, g, sub)
+    def one(vs):
+        parts = closed_cond(rng, g, vs)
         g.var_ids = var_ids
-    else:
-        cond = closed_cond(rng, g, var_ids)
+        return parts
+    vs = var_ids
+    if bound_ctx and len(var_ids) > 1 and rng.random() < 0.6:
+        vs = rng.sample(var_ids, rng.randint(1, len(var_ids) - 1))
+    cond = one(vs)
+    if rng.random() < 0.25:
+        # the branch condition is a top-level disjunction of two conjunctions (over the same variables)
+        conj = lambda ps: ps[0] if len(ps) == 1 else ('and',) + tuple(ps)    # noqa: E731
+        cond = [('or', conj(cond), conj(one(vs)))]
     node = {'tag': counter[0], 'cond': cond, 'kids': []}
     counter[0] += 1
     if depth > 0:
@@ -291,8 +297,8 @@ def c12(report, rng, tier, findings):
     n = n_cases(tier, 240, 3000)
     cases = []
     for i in range(n):
-        nv = rng.choice((1, 1, 2))
-        cfg, base = base_dataset(rng, nv, n_objs=(3, 5) if nv == 1 else (2, 3))
+        nv = rng.choice((1, 2, 2))
+        cfg, base = base_dataset(rng, nv, n_objs=(3, 5) if nv == 1 else (2, 4))
         ids = [v[0] for v in base['vars']]
         g = gen.CondGen(rng, cfg, ids)
         depth = rng.choice((1, 2, 2, 3)) if tier == 'quick' else rng.choice((1, 2, 3, 3))
@@ -301,7 +307,7 @@ def c12(report, rng, tier, findings):
                       'args': [('var', v) for v in ids], 'rule': rule})
     report.rule = ("random rule trees to depth 3 built with Add conclusions, refinement and alternative (0-3 blocks per node in any order; "
                    "refinements under the base, under refinements and under alternatives; alternatives under refinements; "
-                   "chains of alternatives), conjunctive conditions over 1-2 variables - mentioning every variable on the root's "
+                   "chains of alternatives), conjunctive conditions (25%: a disjunction of two conjunctions) over 1-2 variables - mentioning every variable on the root's "
                    "alternative chain, any non-empty subset below a refinement (where every variable is bound) -, overlapping and exclusive "
                    "sibling conditions; the multiset of (conclusion, fields) is compared with a recursive ripple-down-rules "
                    "reference interpreter and the constructed tree with the model's construction; caching on and off, two "
